@@ -24,6 +24,9 @@ mod c20;
 mod fswatch;
 mod net;
 mod sched;
+mod refresh;
+mod upgrade;
+mod contact;
 mod tl;
 
 fn main() {
@@ -82,6 +85,9 @@ fn run(module: &str, command: &str, kv: &common::Args) -> i32 {
         ("c20", "drive") => c20::drive(kv),
         ("tl", "drive") => tl::drive(kv),
         ("sched", "drive") => sched::drive(kv),
+        ("refresh", "drive") => refresh::drive(kv),
+        ("upgrade", "drive") => upgrade::drive(kv),
+        ("contact", "drive") => contact::drive(kv),
         (m, c) => {
             eprintln!("unknown module/command {m} {c}");
             2
